@@ -443,7 +443,7 @@ class Mailbox:
                 # NOTE: Once this command begins executing it will block any
                 #       new task from executing until they finish.
                 #
-                if self.sequences.get("Deleted", []):
+                if self.sequences.get("Deleted", []) or imap_cmd.forced_expunge:
                     # If there are messages to be expunged, can only run when
                     # there are no other commands running
                     #
